@@ -153,8 +153,8 @@ def check_c20(run):
     quick = run.tier == "quick"
     d = run.spec_dir("gen-lines")
     open(os.path.join(d, "g.cfg"), "w").write(
-        "SPECIFICATION GSpec\nCONSTANTS\n  GLead = {%s}\n  GPre = {%s}\n  GFill = {%s}\n" % (
-            ("0, 1, 3", "0, 2", "0, 2") if quick else ("0, 1, 2, 3", "0, 1, 2", "0, 1, 2")))
+        "SPECIFICATION GSpec\nCONSTANTS\n  GLead = {%s}\n  GPre = {%s}\n  GFill = {%s}\n  GFar = {%s}\n" % (
+            ("0, 1, 3", "0, 2", "0, 2", "70000") if quick else ("0, 1, 2, 3", "0, 1, 2", "0, 1, 2", "65530, 65536, 131080")))
     r = run.tlc("LangLines.tla", "g.cfg", workers=4, cwd=d, timeout=900)
     if not r.ok:
         raise Infra("LangLines failed:\n" + r.tail(30))
